@@ -5,9 +5,11 @@ package props
 
 import (
 	"fmt"
+	"math/rand"
 	"sort"
 	"strconv"
 	"strings"
+	"sync"
 
 	"verif/harness/rig"
 )
@@ -56,17 +58,38 @@ func (c *Ctx) ArgInt(k string, def int) int {
 
 // Want reports whether case idx of generator gen is to be run.
 func (c *Ctx) Want(gen string, idx int) bool {
-	if c.Only == "" && len(c.Skip) == 0 {
-		return true
-	}
 	id := fmt.Sprintf("%s:%d", gen, idx)
 	if c.Skip[id] {
 		return false
 	}
-	if c.Only == "" {
-		return true
+	if c.Only != "" && c.Only != id {
+		return false
 	}
-	return c.Only == id
+	setCurrentCase(c.Seed, c.Prop+"/"+c.Batch.Name+"/"+id)
+	return true
+}
+
+// The case in flight: NewSession derives the configuration values no property depends on (see there) from it, so
+// that a replayed case gets the same ones.
+var (
+	curMu   sync.Mutex
+	curSeed int64
+	curCase string
+	curSess int
+)
+
+func setCurrentCase(seed int64, id string) {
+	curMu.Lock()
+	curSeed, curCase, curSess = seed, id, 0
+	curMu.Unlock()
+}
+
+// sessionRand returns the PRNG for the next session of the case in flight.
+func sessionRand() *rand.Rand {
+	curMu.Lock()
+	defer curMu.Unlock()
+	curSess++
+	return rig.Rand(curSeed, "cfgfuzz", curCase, curSess)
 }
 
 // WantGen reports whether any case of generator gen may be wanted.
